@@ -19,3 +19,206 @@ Example C04_nonvacuous :
                   (fst (modify 0 false (mkP [97] 1 [] [[1]; [0]] [] []) empty_table))))
   = [mkO (mkP [97] 1 [] [[1]; [0]] [] []) 1; mkO (mkP [98] 2 [] [[1]] [] []) 2].
 Proof. vm_compute. reflexivity. Qed.
+
+(* ======================================================================================= *)
+(* Second layer: the Agree invariant and query exactness through every index               *)
+(* (Table/AgreeN.v, Table/AgreeLpm.v, Table/Agree.v, Table/AgreeRun.v, Table/Queries.v,    *)
+(*  Table/Refuted.v).                                                                      *)
+(* ======================================================================================= *)
+From SV Require Import KeyEnc.Model KeyEnc.Proofs Table.InvDefs Table.Inv Table.Inv2 Table.Inv3
+  Table.AgreeDefs Table.AgreeLpm Table.AgreeN Table.Agree Table.AgreeRun Table.Queries Table.Refuted.
+From Coq Require Import Sorted.
+
+(* ---- reindex (part_index.go partIndexTxn.reindex), extensionally ---------------------------- *)
+(* The entries of the new object are inserted under each of its keys, the entries under keys of
+   the old object that are not keys of the new one are removed, everything else is untouched;
+   sortedness is kept. Duplicates in key lists, empty key lists, no old object (revision 0) and
+   no new object (revision 0 = delete) are covered. *)
+Theorem C04_reindex_spec : forall unique keys idKey old new t K o', om_sorted t ->
+  om_sorted (reindex unique keys idKey old new t) /\
+  (In (K, o') (reindex unique keys idKey old new t) <->
+    (o_rev new <> 0 /\ o' = new /\ exists k, In k (keys (o_data new)) /\ K = ikey unique idKey k) \/
+    (In (K, o') t /\
+     ~ (o_rev new <> 0 /\ exists k, In k (keys (o_data new)) /\ K = ikey unique idKey k) /\
+     ~ (o_rev old <> 0 /\ exists k, In k (keys (o_data old)) /\ K = ikey unique idKey k))).
+Proof. exact reindex_sorted_spec. Qed.
+Print Assumptions C04_reindex_spec.
+
+(* ---- Agree: every secondary index describes exactly the live objects --------------------------- *)
+Theorem C04_agree_empty : Agree empty_table.
+Proof. exact Agree_empty. Qed.
+Print Assumptions C04_agree_empty.
+
+(* insert / Modify / CompareAndSwap, accepted or rejected; the user owes the documented
+   well-formedness of the unique indexes of the result *)
+Theorem C04_modify_preserves_agree : forall g m p t, TInv t -> Agree t ->
+  u_wf (fst (modify g m p t)) -> lu_wf (fst (modify g m p t)) ->
+  Agree (fst (modify g m p t)).
+Proof. exact modify_agree. Qed.
+Print Assumptions C04_modify_preserves_agree.
+
+(* the same, the obligation stated on the new object only: none of its unique keys is a key of
+   another live object *)
+Theorem C04_modify_preserves_agree_new : forall g m p t, TInv t -> Agree t ->
+  new_respects p_u (new_object m p t) t -> new_respects p_lu (new_object m p t) t ->
+  Agree (fst (modify g m p t)).
+Proof. exact modify_agree'. Qed.
+Print Assumptions C04_modify_preserves_agree_new.
+
+(* Delete / CompareAndDelete, accepted or rejected: no obligation *)
+Theorem C04_delete_preserves_agree : forall g id t, TInv t -> Agree t -> Agree (fst (delete g id t)).
+Proof. exact delete_agree. Qed.
+Print Assumptions C04_delete_preserves_agree.
+
+Theorem C04_delete_all_preserves_agree : forall t, TInv t -> Agree t -> rev_bound (delete_all t) ->
+  Agree (delete_all t).
+Proof. exact delete_all_agree. Qed.
+Print Assumptions C04_delete_all_preserves_agree.
+
+(* after any sequence of operations of the database model (run_wf: revisions below 2^64 and
+   well-formed unique indexes at every step) every table value reachable anywhere - committed
+   root, open write transaction, snapshots - satisfies the core invariant and Agree *)
+Theorem C04_reachable_agree : forall n ops t,
+  run_wf (init_db n) ops -> in_db (fst (run (init_db n) ops)) t -> TInv t /\ Agree t.
+Proof. exact reachable_agree. Qed.
+Print Assumptions C04_reachable_agree.
+
+(* the pre-fix KeySet.Exists (true for the empty key on the empty set) broke it *)
+Theorem C04_old_exists_refuted :
+  exists t id, n_agree t /\ ~ n_agree (fst (delete_with reindex_old 0 id t)).
+Proof. exact reindex_empty_key_refuted. Qed.
+Print Assumptions C04_old_exists_refuted.
+
+(* ---- non-unique index ------------------------------------------------------------------------------ *)
+(* List = exactly the live objects having the key, each once, in primary-key order (pk_short =
+   the guard of known finding K1: escaped primary keys shorter than 256 bytes) *)
+Theorem C04_list_nonunique : forall t key, TInv t -> n_agree t -> pk_short t ->
+  q_list INn key t = filter (has_key key) (vals (t_primary t)).
+Proof. exact q_list_n_exact. Qed.
+Print Assumptions C04_list_nonunique.
+
+Theorem C04_list_nonunique_members : forall t key, TInv t -> n_agree t -> pk_short t ->
+  NoDup (q_list INn key t) /\ StronglySorted by_pk (q_list INn key t) /\
+  forall o, In o (q_list INn key t) <-> live t o /\ In key (p_n (o_data o)).
+Proof. exact q_list_n_members. Qed.
+Print Assumptions C04_list_nonunique_members.
+
+Theorem C04_get_nonunique : forall t key, TInv t -> n_agree t -> pk_short t ->
+  q_get INn key t = hd_error (filter (has_key key) (vals (t_primary t))).
+Proof. exact q_get_n_exact. Qed.
+Print Assumptions C04_get_nonunique.
+
+(* Prefix / LowerBound: every live object having a qualifying key, once, paired with its smallest
+   qualifying key, in ascending (key, primary key) order *)
+Theorem C04_prefix_nonunique : forall t p, TInv t -> n_agree t -> pk_short t ->
+  exists L : list (bytes * object),
+    q_prefix INn p t = map snd L /\
+    NoDup (q_prefix INn p t) /\
+    (forall o, In o (q_prefix INn p t) <-> live t o /\ exists k, In k (p_n (o_data o)) /\ has_prefix k p = true) /\
+    (forall k o, In (k, o) L <-> live t o /\ least_key (fun k => has_prefix k p = true) (p_n (o_data o)) k) /\
+    StronglySorted entry_lt L.
+Proof. exact q_prefix_n_exact. Qed.
+Print Assumptions C04_prefix_nonunique.
+
+Theorem C04_lower_bound_nonunique : forall t key, TInv t -> n_agree t -> pk_short t ->
+  exists L : list (bytes * object),
+    q_lower_bound INn key t = map snd L /\
+    NoDup (q_lower_bound INn key t) /\
+    (forall o, In o (q_lower_bound INn key t) <-> live t o /\ exists k, In k (p_n (o_data o)) /\ ~ lex_lt k key) /\
+    (forall k o, In (k, o) L <-> live t o /\ least_key (fun k => ~ lex_lt k key) (p_n (o_data o)) k) /\
+    StronglySorted entry_lt L.
+Proof. exact q_lower_bound_n_exact. Qed.
+Print Assumptions C04_lower_bound_nonunique.
+
+(* ---- unique index ---------------------------------------------------------------------------------- *)
+Theorem C04_get_unique : forall t k o, u_agree t ->
+  (q_get IU k t = Some o <-> live t o /\ In k (p_u (o_data o))).
+Proof. exact q_get_u_exact. Qed.
+Print Assumptions C04_get_unique.
+
+Theorem C04_list_unique : forall t k, u_agree t ->
+  (length (q_list IU k t) <= 1)%nat /\
+  forall o, In o (q_list IU k t) <-> live t o /\ In k (p_u (o_data o)).
+Proof. exact q_list_u_exact. Qed.
+Print Assumptions C04_list_unique.
+
+Theorem C04_prefix_unique : forall t p, u_agree t ->
+  exists L, q_prefix IU p t = map snd L /\ om_sorted L /\
+    forall K o, In (K, o) L <-> has_prefix K p = true /\ In K (p_u (o_data o)) /\ live t o.
+Proof. exact q_prefix_u_exact. Qed.
+Print Assumptions C04_prefix_unique.
+
+Theorem C04_lower_bound_unique : forall t k, u_agree t ->
+  exists L, q_lower_bound IU k t = map snd L /\ om_sorted L /\
+    forall K o, In (K, o) L <-> ~ lex_lt K k /\ In K (p_u (o_data o)) /\ live t o.
+Proof. exact q_lower_bound_u_exact. Qed.
+Print Assumptions C04_lower_bound_unique.
+
+(* ---- primary index, All, NumObjects -------------------------------------------------------------- *)
+Theorem C04_get_primary : forall t k o, TInv t ->
+  (q_get IPrimary k t = Some o <-> live t o /\ p_id (o_data o) = k).
+Proof. exact q_get_primary_exact. Qed.
+Print Assumptions C04_get_primary.
+
+Theorem C04_all : forall t, TInv t ->
+  StronglySorted by_pk (q_all t) /\ forall o, In o (q_all t) <-> live t o.
+Proof. exact q_all_exact. Qed.
+Print Assumptions C04_all.
+
+Theorem C04_num_objects : forall t, TInv t ->
+  NoDup (q_all t) /\ q_num t = N.of_nat (length (q_all t)).
+Proof. exact q_num_objects. Qed.
+Print Assumptions C04_num_objects.
+
+(* ---- longest-prefix-match indexes ---------------------------------------------------------------- *)
+Theorem C04_lpm_queries_are : forall d tab u q t,
+  run_query d tab (QLList u q) t = (if negb (Nat.eqb (length q) 16) then OutNone else OutObjs (ql_list u q t)) /\
+  run_query d tab (QLGet u q) t = (if negb (Nat.eqb (length q) 16) then OutNone else OutGet (ql_get u q t)) /\
+  run_query d tab (QLPrefix u q) t = OutObjs (l_objs (l_prefix q (lpm_idx u t))) /\
+  run_query d tab (QLLowerBound u q) t = OutObjs (l_objs (l_lower_bound q (lpm_idx u t))).
+Proof. exact run_query_ql. Qed.
+Print Assumptions C04_lpm_queries_are.
+
+(* Get / List: the live objects having the longest stored prefix covering the key, in primary-key
+   order; nothing if no stored prefix covers it *)
+Theorem C04_lpm_list : forall u q t, TInv t -> Agree t ->
+  (forall k, longest_cover u t q k -> ql_list u q t = filter (has_lkey u k) (vals (t_primary t))) /\
+  ((forall k, ~ covers u t q k) -> ql_list u q t = []) /\
+  ql_get u q t = hd_error (ql_list u q t).
+Proof. exact ql_list_exact. Qed.
+Print Assumptions C04_lpm_list.
+
+Theorem C04_lpm_list_unique : forall q t, Agree t -> lu_wf t -> (length (ql_list true q t) <= 1)%nat.
+Proof. exact ql_list_unique_le1. Qed.
+Print Assumptions C04_lpm_list_unique.
+
+(* Prefix / LowerBound: one result per (prefix, object) pair with qualifying prefix, in
+   (prefix bits, primary key) order *)
+Theorem C04_lpm_prefix : forall u q t, Agree t ->
+  let F := l_flat (l_prefix q (lpm_idx u t)) in
+  l_objs (l_prefix q (lpm_idx u t)) = map snd F /\ StronglySorted flat_lt F /\
+  forall k pk o, In (k, pk, o) F <->
+    (bits_prefix q k = true /\ In k (lpm_keys u (o_data o)) /\ pk = p_id (o_data o) /\ live t o).
+Proof. exact ql_prefix_exact. Qed.
+Print Assumptions C04_lpm_prefix.
+
+Theorem C04_lpm_lower_bound : forall u q t, Agree t ->
+  let F := l_flat (l_lower_bound q (lpm_idx u t)) in
+  l_objs (l_lower_bound q (lpm_idx u t)) = map snd F /\ StronglySorted flat_lt F /\
+  forall k pk o, In (k, pk, o) F <->
+    (bits_ltb k q = false /\ In k (lpm_keys u (o_data o)) /\ pk = p_id (o_data o) /\ live t o).
+Proof. exact ql_lower_bound_exact. Qed.
+Print Assumptions C04_lpm_lower_bound.
+
+(* ---- end to end: exactness on every reachable table ------------------------------------------------ *)
+Theorem C04_reachable_list_nonunique : forall n ops t key,
+  run_wf (init_db n) ops -> in_db (fst (run (init_db n) ops)) t -> pk_short t ->
+  q_list INn key t = filter (has_key key) (vals (t_primary t)).
+Proof. exact reachable_q_list_n. Qed.
+Print Assumptions C04_reachable_list_nonunique.
+
+(* the hypotheses TInv / Agree / pk_short / u_wf / lu_wf are satisfiable by a non-empty table *)
+Example C04_nonvacuous_invariants :
+  TInv nv_table /\ Agree nv_table /\ pk_short nv_table /\ u_wf nv_table /\ lu_wf nv_table /\
+  live nv_table (mkO nv_payload 1).
+Proof. exact agree_nonvacuous. Qed.
